@@ -1,9 +1,46 @@
 import NanoVerif.Proofs.PoolAll
+import NanoVerif.Proofs.PoolGap
+import NanoVerif.Proofs.PoolProgress
+import NanoVerif.Proofs.PoolFine
 /-!
   C17 — property theorems about the thread-pool protocol model (`Model/Pool.lean`): every statement quantifies over
   every reachable state, i.e. over every interleaving of any number of workers, tasks and client calls (several
   submitters, a concurrent destructor), every spurious wake-up and every choice of `notify_one`.
   Core Lean only. Nothing here is weakened to make a proof pass.
+
+  ## Gap table (gap-closing round): every function of the anchored files and where it lives
+
+  include/nano/core/parallel.h
+  | code                                              | status    | Lean definition / check                                                        |
+  |---------------------------------------------------|-----------|--------------------------------------------------------------------------------|
+  | `nano::verif::pool_hook / pool_emit / NANO_VERIF_POOL` | outside | instrumentation H1 itself; `static_checks` counts the call sites and compares the `#ifdef` twin of the wait predicate with the original |
+  | `queue_t::queue_t`, members `m_tasks / m_stop`    | modelled  | `init` (`queue = []`, `stop = false`); `St.queue` is a FIFO (push at the back `cPush`, pop at the front `wTake`) |
+  | `queue_t::m_mutex`                                | modelled + monitored | every critical section = ONE event of `step`; justified per trace by `Ck.acquire/holds/release` and, independently, `Mon.needHolder` |
+  | `queue_t::m_condition`                            | oracle (contract: wait releases atomically, may wake spuriously, notify_one wakes ≤ 1 waiter, notify_all all) | `wSleep`, `wWake`, `cNotify`, `wake`; fine-grained `stepF` (`predFalse`, `block`) proved to refine the atomic events (`locked_fine_grained_no_lost_wakeup`) |
+  | `queue_t::enqueue`                                | modelled  | `cPush c [t] false` + `cNotify c w?`; trace states `eq0 … eq4`                           |
+  | `queue_t::enqueue_no_lock`                        | modelled  | one element of the `ts` of `cPush c ts true` (inside `map`'s critical section); trace state `mpP3` |
+  | `worker_t::worker_t`                              | modelled  | worker index `w < nw` of `init nw`; `Mon.bindWorker` (thread ↔ index bijection on every trace) |
+  | `section_t` constructors / move (`= default`)      | outside   | compiler-generated, no behaviour of their own (`map` only default-constructs, `reserve`s and `emplace_back`s) |
+  | `section_t::block(raise)` (parallel.cpp:82-91)     | modelled  | `step2`: `bBegin`, `bWait` (get vs wait, rethrow), `bDone`; `blockResult`              |
+  | `section_t::~section_t` (parallel.cpp:93-96)       | modelled  | `step2`: `dWait`, `exit` (unguarded), `dtorSees`; theorem `map_exit_implies_all_ready`   |
+  | `pool_t::pool_t()`, `pool_t(size_t)`               | modelled  | `defaultSize`, `clampSize`, `init nw`; `pool_size_bounds`; driver `szok=`               |
+  | `pool_t::~pool_t`                                  | modelled  | `dStop`, `cNotify` (from `stopSet`), `dJoined`; seeded variant `stopNoLock` of `stepF`  |
+  | `pool_t::enqueue`                                  | modelled  | forwards to `queue_t::enqueue`                                                         |
+  | `pool_t::size()`                                   | modelled  | `St.nw` = `clampSize threads hc`                                                       |
+  | `pool_t::max_size()`                               | modelled; `hardware_concurrency()` = oracle without contract (any number, 0 included) | `maxSize hc` |
+  | `pool_t::map(elements, op, raise)`                 | modelled  | `seqPathElems`, `sStart/sOpBegin/sOpEnd/sReturn` (tnum 0, `firstErr`, `seqResult`), `elemRanges`, `cPush … true`, section |
+  | `pool_t::map(elements, chunksize, op, raise)`      | modelled  | `seqPathChunk`, `chunks`, same events; `assert(chunksize >= 1)` = hypothesis `0 < c`    |
+  | deleted copy / move of `pool_t`, `section_t`       | outside   | compile-time only                                                                      |
+  | `loopi`, `loopr`                                   | —         | do not exist in this version of the library (only `map` and `enqueue`)                  |
+
+  src/core/parallel.cpp
+  | `worker_t::operator()` (33-80)                     | modelled  | `wTake`, `wSleep`, `wWake`, `wExit` (clear + notify_all under the lock), `wRunEnd`; program order `wPre … wClr3` |
+  | `pool_hook()`, `trace_sink()`                      | outside   | instrumentation                                                                        |
+  | std::mutex / packaged_task / shared_future / thread::join | oracle | contracts in DESIGN §3; monitored on every run where observable: mutual exclusion (`acquire`), a future is ready only after its task ran or was dropped (`cReturn` enabled, harness `late` / `fin`), `broken_promise` after `clear` (`dropped-future`) |
+
+  Hypotheses re-examined: `0 < s.nw` of `quiescent_complete` / `deadlock_free` holds for every pool (`pool_size_bounds`: size ≥ 1);
+  `s.stop = false` in "ready ⇒ done" is necessary (kernel-checked run with a dropped task below, replayed on the real code by the
+  corpus lines with waitmode 2); the usage contract "no submission after `~pool_t` started" stays an assumption. No `_partial` theorem.
 -/
 namespace NanoVerif.Pool
 
@@ -247,5 +284,222 @@ example : run (init 2) [.cPush 0 [0] false, .cNotify 0 none, .wTake 0, .cReturn 
 
 example : chunks 10 3 = [(0, 3), (3, 6), (6, 9), (9, 10)] := by decide
 example : chunks 0 3 = [] ∧ chunks 3 3 = [(0, 3)] ∧ chunks 3 4 = [(0, 3)] := by decide
+
+/-! ## gap-closing round: `section_t`, task shape, pool size, `m_stop` without the mutex, deadlock freedom -/
+
+/-- **`section_t` modelled explicitly** (`Model/PoolSection.lean`: `block(raise)` future by future, the rethrow, `~section_t` =
+    `block(false)` over all futures, an UNGUARDED exit). In every reachable state of the refined model: when the client leaves
+    `map` — returning normally (`exc = none`) or with the exception of task `exc` propagating — the destructor has waited
+    every future of the section and every future is ready; what leaves is exactly `blockResult` (the first future in index
+    order holding an exception iff `raise`); and unless a destructor of the pool ran, every task of the call is done and ran
+    exactly once. -/
+theorem map_exit_implies_all_ready (s s' : St2) (hr : Reachable2 s) (c : Nat) (h : step2 false s (.exit c) = some s') :
+    ∃ ts raise exc, s.spc c = .dtor ts raise ts.length exc ∧ s.base.cpc c = .waiting ts ∧ s'.spc c = .out exc ∧
+      (∀ t ∈ ts, ready? (s.base.ts t) = true) ∧
+      exc = blockResult s.base ts raise ∧
+      (s.base.stop = false → ∀ t ∈ ts, s.base.ts t = .done ∧ s.base.exec t = 1) := by
+  obtain ⟨hrb, hs⟩ := reachable2_invs s hr
+  obtain ⟨ts, raise, exc, hpc, rfl⟩ := step2_exit h
+  obtain ⟨h1, _, h3, h4⟩ := hs.dt c ts raise ts.length exc hpc
+  have hall : ∀ t ∈ ts, ready? (s.base.ts t) = true := by
+    intro t ht
+    obtain ⟨j, hj, hjt⟩ := List.getElem_of_mem ht
+    exact h3 j t hj (by rw [List.getElem?_eq_getElem hj, hjt])
+  refine ⟨ts, raise, exc, hpc, h1, by simp [upd_same], hall, ?_, ?_⟩
+  · cases exc with
+    | none =>
+      cases raise with
+      | false => rfl
+      | true =>
+        obtain ⟨_, hn⟩ := h4 rfl
+        simp only [blockResult, if_true]
+        exact (find?_none_of_all ts hn).symm
+    | some t =>
+      obtain ⟨hraise, k, hk, _, hex, _, hn⟩ := h4
+      subst hraise
+      simp only [blockResult, if_true]
+      exact (find?_of_first ts k t hk hex hn).symm
+  · intro hstop t ht
+    have hd : s.base.ts t = .done := by
+      have a := hall t ht
+      have b := (reachable_invs s.base hrb).2.2.1.D hstop t
+      cases hts : s.base.ts t <;> simp [hts, ready?] at a b ⊢
+    exact ⟨hd, (done_implies_executed_once s.base hrb t).1 hd⟩
+
+/-- The guarded `cReturn` of the protocol model is what the code does: the (unguarded) exit of the section is a `cReturn`
+    step of the base model. -/
+theorem exit_refines_cReturn (s s' : St2) (hr : Reachable2 s) (c : Nat) (h : step2 false s (.exit c) = some s') :
+    step s.base (.cReturn c) = some s'.base := by
+  obtain ⟨ts, raise, exc, hpc, h1, _, hall, _, _⟩ := map_exit_implies_all_ready s s' hr c h
+  obtain ⟨_, _, _, _, rfl⟩ := step2_exit h
+  simp only [step, h1]
+  rw [if_pos hall]
+
+/-- The seeded change "block() swaps the futures into a local before waiting" (`swapped = true`: the destructor sees an
+    empty vector): task 0 throws, `get()` rethrows, the destructor waits nothing and `map` is left with the exception
+    while task 1 of the call has not even started. The same schedule is not a run of the code as it is. -/
+theorem swapped_section_exits_with_unfinished_task :
+    ((run2 true (init2 2) [.base (.cPush 0 [0, 1] true), .base (.cNotify 0 none), .base (.wTake 0), .bBegin 0 true,
+        .base (.wRunEnd 0 true), .bWait 0, .exit 0]).map fun s => (s.spc 0, s.base.ts 1, s.base.exec 1))
+      = some (.out (some 0), .queued, 0) ∧
+    run2 false (init2 2) [.base (.cPush 0 [0, 1] true), .base (.cNotify 0 none), .base (.wTake 0), .bBegin 0 true,
+        .base (.wRunEnd 0 true), .bWait 0, .exit 0] = none := by
+  refine ⟨by decide, by decide⟩
+
+/-- **Task shape**: `map(elements, op)` pushes one task per index, `map(elements, chunksize, op)` one task per chunk
+    (`Call.ranges`; the trace checker verifies on every recorded run that each task makes exactly one operator call with the
+    range of its position). Hence, whatever `raise` is and whichever tasks throw (`threw` is arbitrary): when the client
+    leaves `map` without a pool destructor having run, every task of the call is done and ran exactly once, and every index
+    `i < elements` lies in the range of exactly one task position (`i` itself / chunk `i / chunksize`) — so the operator was
+    invoked exactly once for every index, also when some invocations threw. -/
+theorem every_index_invoked_once_even_if_some_throw (s s' : St2) (hr : Reachable2 s) (c : Nat)
+    (h : step2 false s (.exit c) = some s') (hstop : s.base.stop = false) :
+    (∃ ts raise exc, s.spc c = .dtor ts raise ts.length exc ∧ ∀ t ∈ ts, s.base.ts t = .done ∧ s.base.exec t = 1) ∧
+    (∀ n i k, i < n → ((∃ p, (elemRanges n)[k]? = some p ∧ p.1 ≤ i ∧ i < p.2) ↔ k = i)) ∧
+    (∀ n cs i k, 0 < cs → i < n → ((∃ p, (chunks n cs)[k]? = some p ∧ p.1 ≤ i ∧ i < p.2) ↔ k = i / cs)) := by
+  obtain ⟨ts, raise, exc, hpc, _, _, _, _, hdone⟩ := map_exit_implies_all_ready s s' hr c h
+  exact ⟨⟨ts, raise, exc, hpc, hdone hstop⟩, fun n i k hi => elem_of_index n i k hi,
+    fun n cs i k hc hi => chunk_of_index n cs i k hc hi⟩
+
+/-- `pool_t::pool_t(threads)`, `pool_t()`, `max_size()`, `size()`: the pool has between 1 and `max_size()` workers, exactly
+    the requested number when that is in range, `max_size()` by default; and `max_size() ≥ 1` whatever
+    `hardware_concurrency()` answers (0 included). -/
+theorem pool_size_bounds (threads hc : Nat) :
+    1 ≤ clampSize threads hc ∧ clampSize threads hc ≤ maxSize hc ∧
+    (1 ≤ threads → threads ≤ maxSize hc → clampSize threads hc = threads) ∧
+    (threads = 0 → clampSize threads hc = 1) ∧ (maxSize hc ≤ threads → clampSize threads hc = maxSize hc) ∧
+    defaultSize hc = maxSize hc ∧ 1 ≤ maxSize hc ∧ (1 ≤ hc → maxSize hc = hc) := by
+  have hm := maxSize_pos hc
+  refine ⟨?_, ?_, ?_, ?_, ?_, ?_, hm, ?_⟩
+  · unfold clampSize; split <;> (try split) <;> omega
+  · unfold clampSize; split <;> (try split) <;> omega
+  · intro h1 h2; unfold clampSize; split <;> (try split) <;> omega
+  · intro h0; unfold clampSize; subst h0; simp
+  · intro h1; unfold clampSize; split <;> (try split) <;> omega
+  · unfold defaultSize clampSize; split <;> (try split) <;> omega
+  · intro h1; unfold maxSize; split <;> omega
+
+/-- **Why `m_stop` is written under the mutex** (next to `no_lost_wakeup`). In the fine-grained model (`stepF`: predicate
+    evaluation and blocking are two events, the mutex is held in between) with the seeded destructor that sets an atomic
+    flag WITHOUT the mutex, a pool of ONE worker reaches, by the schedule `lostWakeupTrace` = worker evaluates the
+    predicate (false) · destructor sets stop · destructor notifies (nobody waits yet) · worker blocks, a state in which
+    invariant `J` fails and nothing but a spurious wake-up can ever happen: the destructor is in `join`, the worker sleeps.
+    With the destructor as coded (`dStop` needs the mutex) the schedule is impossible. -/
+theorem stop_without_lock_loses_wakeup :
+    ∃ sf, runF 1 (initF 1) lostWakeupTrace = some sf ∧ ¬ J sf.s ∧ Quiescent sf.s ∧
+      sf.s.cpc 1 = .joining ∧ sf.s.wpc 0 = .sleeping ∧ sf.s.stop = true ∧
+      runF 1 (initF 1) [.predFalse 0, .atom (.dStop 1)] = none :=
+  ⟨_, lost_run, lost_not_J, lost_quiescent, by simp [lostState, upd], by simp [lostState, upd], rfl, by decide⟩
+
+/-- **The atomic `wSleep` is justified by the mutex**: in the fine-grained model (predicate evaluation and blocking are two
+    events, the mutex is held in between, events that need the mutex are disabled meanwhile) every run in which `m_stop` is
+    only written under the mutex stays inside the reachable states of the atomic model; in particular `no_lost_wakeup`
+    (invariant `J`) holds at every point of it. `stop_without_lock_loses_wakeup` is the converse: one `stopNoLock` breaks it. -/
+theorem locked_fine_grained_no_lost_wakeup (nw : Nat) (es : List EvF) (f : StF)
+    (hne : ∀ e ∈ es, usesStopNoLock e = false) (h : runF nw (initF nw) es = some f) : Reachable f.s ∧ J f.s := by
+  obtain ⟨hr, _⟩ := fine_refines_atomic nw es (initF nw) f ⟨nw, [], rfl⟩ rfl (fun w hw => by cases hw) hne h
+  exact ⟨hr, no_lost_wakeup f.s hr⟩
+
+/-- every client call has returned, no task is queued, and if a destructor ran every worker has exited -/
+def Complete (s : St) : Prop :=
+  (∀ c, s.cpc c = .idle ∨ s.cpc c = .finished) ∧ s.queue = [] ∧ (s.stop = true → ∀ w, w < s.nw → s.wpc w = .exited)
+
+/-- **Deadlock freedom**: in every reachable state of a pool with at least one worker that is not complete (a call has not
+    returned, a task is queued, or a destructor waits for a worker) some event of the pool itself — not a wake-up, not
+    the start of a new call — is enabled. -/
+theorem deadlock_free (s : St) (hr : Reachable s) (hnw : 0 < s.nw) (hnc : ¬ Complete s) :
+    ∃ e s', isWake e = false ∧ startsCall e = false ∧ step s e = some s' := by
+  apply Classical.byContradiction
+  intro hne
+  apply hnc
+  apply quiescent_complete s hr hnw
+  intro e h1 h2
+  cases hst : step s e with
+  | none => rfl
+  | some s' => exact absurd ⟨e, s', h1, h2, hst⟩ hne
+
+/-- **Variant function** (liveness beyond `quiescent_complete`). `mu C T s` = Σ workers (`exited` 0, `sleeping` nw, `ready` /
+    `running` nw+1) + Σ tasks below `T` (`queued` 2, `running` 1) + Σ client calls below `C` (`pushed` / `stopSet` nw+2,
+    `waiting` / `joining` 1, sequential loop 2·(calls left) + 1 between calls). In every reachable state whose client calls
+    and tasks have ids below `C`, `T`: every event that is not the start of a new client call keeps these bounds, strictly
+    DECREASES `mu` unless it is a wake-up, and a wake-up (spurious or the one `notify_one` chose) raises it by exactly 1. -/
+theorem progress_measure_decreases (C T : Nat) (s s' : St) (e : Ev) (hr : Reachable s) (hb : Bnd C T s)
+    (hstart : startsCall e = false) (h : step s e = some s') :
+    Bnd C T s' ∧ (isWake e = false → mu C T s' < mu C T s) ∧ (isWake e = true → mu C T s' = mu C T s + 1) :=
+  progress_step C T s s' e hr hb hstart h
+
+/-- Hence a run without new client calls makes at most `mu + (number of wake-ups)` steps of the pool itself: with finitely
+    many spurious wake-ups every run stops, and by `deadlock_free` / `quiescent_complete` it can only stop in a complete
+    state (every call returned, queue empty, after a destructor every worker exited). -/
+theorem run_without_new_calls_bounded (C T : Nat) (es : List Ev) (s s' : St) (hr : Reachable s) (hb : Bnd C T s)
+    (hns : ∀ e ∈ es, startsCall e = false) (h : run s es = some s') :
+    others es + mu C T s' ≤ mu C T s + wakes es :=
+  (run_bounded C T es s s' hr hb hns h).1
+
+/-- The hypothesis `0 < nw` of `quiescent_complete` / `deadlock_free` is discharged for every pool the constructors can
+    build: whatever number of threads is requested and whatever `hardware_concurrency()` answers, a run of the pool
+    `pool_t(threads)` can only stop (nothing but wake-ups and new calls enabled) in a complete state. -/
+theorem constructed_pool_quiescent_complete (threads hc : Nat) (es : List Ev) (s : St)
+    (h : run (init (clampSize threads hc)) es = some s) (hq : Quiescent s) : Complete s := by
+  have hnw : s.nw = clampSize threads hc := run_nw _ es s h
+  exact quiescent_complete s ⟨_, es, h⟩ (by rw [hnw]; exact (pool_size_bounds threads hc).1) hq
+
+/-! ### non-vacuity of the gap-closing theorems -/
+
+/-- two workers, `map` of two tasks with `raise`, task 0 throws: `get()` rethrows, the destructor waits both futures, the
+    exception of task 0 leaves `map` after task 1 finished -/
+def sectionRun : List Ev2 :=
+  [.base (.cPush 0 [0, 1] true), .base (.cNotify 0 none), .base (.wTake 0), .base (.wTake 1), .bBegin 0 true,
+   .base (.wRunEnd 0 true), .bWait 0, .base (.wRunEnd 1 false), .dWait 0, .dWait 0, .exit 0]
+
+example : ((run2 false (init2 2) sectionRun).map fun s => (s.spc 0, s.base.cpc 0, s.base.ts 0, s.base.ts 1, s.base.exec 1))
+    = some (.out (some 0), .finished, .done, .done, 1) := by decide
+
+/-- the state before the exit: its hypotheses (`Reachable2`, an enabled `exit`) are satisfiable -/
+example : ∃ s s', Reachable2 s ∧ step2 false s (.exit 0) = some s' ∧ s.base.stop = false := by
+  have h : (run2 false (init2 2) (sectionRun.take 10)).isSome = true := by decide
+  obtain ⟨s, hs⟩ := Option.isSome_iff_exists.mp h
+  have h2 : ((run2 false (init2 2) (sectionRun.take 10)).bind fun s => step2 false s (.exit 0)).isSome = true := by decide
+  rw [hs] at h2
+  obtain ⟨s', hs'⟩ := Option.isSome_iff_exists.mp h2
+  have h3 : ((run2 false (init2 2) (sectionRun.take 10)).map fun s => s.base.stop) = some false := by decide
+  rw [hs] at h3
+  exact ⟨s, s', ⟨2, _, hs⟩, hs', by simpa using h3⟩
+
+/-- the normal path: no exception, `block` waits both, the destructor waits both again, `map` returns -/
+example : ((run2 false (init2 1) [.base (.cPush 0 [0, 1] true), .base (.cNotify 0 none), .base (.wTake 0), .bBegin 0 false,
+      .base (.wRunEnd 0 true), .bWait 0, .base (.wTake 0), .base (.wRunEnd 0 false), .bWait 0, .bDone 0, .dWait 0, .dWait 0,
+      .exit 0]).map fun s => (s.spc 0, s.base.cpc 0)) = some (.out none, .finished) := by decide
+
+/-- the exit is not enabled while the destructor still has a future to wait; a future that is not ready cannot be waited -/
+example : run2 false (init2 2) (sectionRun.take 8 ++ [.exit 0]) = none := by decide
+example : run2 false (init2 2) (sectionRun.take 7 ++ [.dWait 0, .dWait 0]) = none := by decide
+
+example : clampSize 0 8 = 1 ∧ clampSize 3 8 = 3 ∧ clampSize 40 8 = 8 ∧ defaultSize 8 = 8 ∧ maxSize 0 = 1 ∧ sizeFor 1000 0 = 1 := by
+  decide
+
+/-- an incomplete reachable state (a queued task, the worker still ready) -/
+example : ∃ s, Reachable s ∧ 0 < s.nw ∧ ¬ Complete s := by
+  have h : (run (init 1) [.cPush 0 [0] false]).isSome = true := by decide
+  obtain ⟨s, hs⟩ := Option.isSome_iff_exists.mp h
+  have h2 : ((run (init 1) [.cPush 0 [0] false]).map fun s => (s.nw, s.queue)) = some (1, [0]) := by decide
+  rw [hs] at h2
+  simp only [Option.map_some, Option.some.injEq, Prod.mk.injEq] at h2
+  refine ⟨s, ⟨1, _, hs⟩, by omega, ?_⟩
+  rintro ⟨_, hq, _⟩
+  rw [hq] at h2; cases h2.2
+
+/-- the measure along the tail of `demoRun` (after the `map` call was pushed): 2 workers, tasks 0 and 1, client 0 -/
+example : ((run (init 2) (demoRun.take 2)).map fun s => mu 1 2 s) = some 13 ∧
+    ((run (init 2) (demoRun.take 3)).map fun s => mu 1 2 s) = some 12 ∧
+    ((run (init 2) (demoRun.take 4)).map fun s => mu 1 2 s) = some 10 ∧
+    ((run (init 2) (demoRun.take 9)).map fun s => mu 1 2 s) = some 5 := by decide
+
+/-- `Bnd` and the hypotheses of `progress_measure_decreases` are satisfiable -/
+example : Bnd 0 0 (init 3) := ⟨fun _ _ => rfl, fun _ _ => rfl⟩
+
+/-- a fine-grained run with the lock discipline: the worker evaluates its predicate, blocks, THEN the destructor gets the mutex -/
+example : ((runF 1 (initF 1) [.predFalse 0, .block 0, .atom (.dStop 1), .atom (.cNotify 1 none), .atom (.wExit 0),
+    .atom (.dJoined 1)]).map fun f => (f.s.wpc 0, f.s.cpc 1)) = some (.exited, .finished) := by decide
 
 end NanoVerif.Pool
